@@ -251,6 +251,12 @@ func (e *explorer) apply(s state, o op) result {
 	l := build(s, e.capacity)
 	got := l.observe()
 	if got.key() != s.key() {
+		// the state is rebuilt with the queue's own Push and readInbox; on the unchanged tree the
+		// result always is the wanted state. The only way to differ is readInbox not doing what pop
+		// relies on: moving every message it finds in the inbox into the scanned list.
+		if len(got.list)+len(got.inbox) == len(s.list)+len(s.inbox) && len(got.inbox) > len(s.inbox) {
+			return result{viol: "read-inbox-left-messages-unread", what: fmt.Sprintf("after Push + readInbox for every message of the list, %d message(s) are still in the inbox (layout list|inbox|fresh: wanted %s, got %s): a pop scans the list only, so they cannot be returned however admissible and prior they are", len(got.inbox)-len(s.inbox), s.key(), got.key())}
+		}
 		ev.Fatal("state reconstruction diverged: want %s got %s", s.key(), got.key())
 	}
 	all := append(append([]*queue.DecodedSSVMessage{}, l.list...), l.inbox...)
